@@ -143,6 +143,29 @@ pub fn reset(pi: u64) {
     ev(Obj::new("Reset").int("prog", pi as i64));
 }
 
+/// C04: pin (or, when it is pinned and `may_unpin`, unpin) an object through `pin_object`. Only
+/// in spaces whose policy supports the call: copying, mark-compact and compressor spaces panic by
+/// contract.
+#[cfg(feature = "object_pinning")]
+fn pin_op<const V: u32>(_d: &mut Driver<V>, r: usize, may_unpin: bool) {
+    use mmtk::util::{Address, ObjectReference};
+    const PINNABLE: [&str; 9] =
+        ["immix", "ms", "immortal", "los", "nonmoving", "nogc_space", "code_space", "code_lo_space", "ro_space"];
+    let a = unsafe { Address::from_usize(r) };
+    if !PINNABLE.contains(&mmtk::verif::space_name_of_address(a)) {
+        return;
+    }
+    let o = ObjectReference::from_raw_address(a).unwrap();
+    let id = (id_of_ref(r) & 0x7fff_ffff) as i64;
+    if may_unpin && mmtk::memory_manager::is_pinned(o) {
+        let ok = mmtk::memory_manager::unpin_object(o);
+        ev(Obj::new("Unpin").int("id", id).bool("ok", ok));
+    } else {
+        let ok = mmtk::memory_manager::pin_object(o);
+        ev(Obj::new("Pin").int("id", id).bool("ok", ok).bool("now", mmtk::memory_manager::is_pinned(o)));
+    }
+}
+
 pub fn random_program<const V: u32>(d: &mut Driver<V>, p: &Params, pi: u64, nops: u64, is_nogc: bool) {
     let probes = flag("probes");
     // Reset: drop every root of every bound mutator
@@ -181,7 +204,13 @@ pub fn random_program<const V: u32>(d: &mut Driver<V>, p: &Params, pi: u64, nops
             }
             let maxnf = ((size - HDR_BYTES) / 8).min(6);
             let nf = d.rng.below(maxnf as u64 + 1) as usize;
-            d.new_object(m, slot, sem, size, nf, 8, 0, KIND_PLAIN);
+            let r = d.new_object(m, slot, sem, size, nf, 8, 0, KIND_PLAIN);
+            // pin some objects while they are still young (nursery collections must honour the pin)
+            #[cfg(feature = "object_pinning")]
+            if r != 0 && d.rng.chance(1, 5) {
+                pin_op::<V>(d, r, false);
+            }
+            let _ = r;
         } else if c < 65 {
             // Write
             let a = *d.rng.pick(&nonnull);
@@ -210,6 +239,13 @@ pub fn random_program<const V: u32>(d: &mut Driver<V>, p: &Params, pi: u64, nops
             d.load_field(m, a, k, mc, cslot);
         } else if c < 88 {
             // Drop / copy root
+            #[cfg(feature = "object_pinning")]
+            if d.rng.chance(1, 3) {
+                let a = *d.rng.pick(&nonnull);
+                let unpin = d.rng.chance(1, 2);
+                pin_op::<V>(d, Driver::<V>::root_get(m, a), unpin);
+                continue;
+            }
             let slot = d.rng.below(p.nslots as u64) as usize;
             if d.rng.chance(2, 3) {
                 d.set_root(m, slot, 0);
